@@ -641,7 +641,14 @@ public:
         m_base_dom.assign_bool_var(scalar_lhs, scalar_rhs, false);
       } else {
         assert(ty.is_integer() || ty.is_real());
-        m_base_dom.assign(scalar_lhs, scalar_rhs);
+        // scalar_rhs is a summarized variable: lhs gets a copy of its
+        // constraints but the two summaries must not be related
+        // (a relational domain would infer that every cell of lhs
+        // equals every cell of rhs).
+        if (!(scalar_lhs == scalar_rhs)) {
+          m_base_dom -= scalar_lhs;
+          m_base_dom.expand(scalar_rhs, scalar_lhs);
+        }
       }
     } else {
       // nothing is known about the contents of rhs
